@@ -12,7 +12,8 @@ shutil.copyfile("%s/demo%s.rs" % (src, n), out + "/" + os.path.basename(dest))
 log = open("%s/verify%s.log" % (src, n)).read()
 open(out + "/verify.log", "w").write(log)
 m = re.search(r"Summary.*?(\d+) tests run: (\d+) passed", log)
-fails = "must fail)" in log and "FAILED" in log.split("== demo without change")[0]
+_with = log.split("== demo with change")[1].split("== demo without change")[0] if "== demo with change" in log else ""
+fails = "FAILED" in _with or "error: test failed" in _with or ("panicked" in _with and "test result: ok" not in _with)
 passes = re.search(r"test result: ok", log.split("== demo without change")[1]) is not None
 notes = ""
 if os.path.exists(src + "/NOTES.md"):
